@@ -78,6 +78,7 @@ func (w *world) ledgerOf(d state.Dump, pend []chainkit.PendingRecord) *ledger {
 		for _, dl := range v.Delegations {
 			lv.delegs = append(lv.delegs, ldeleg{w.idOf(dl.Delegator), bigOf(dl.Token), bigOf(dl.Stake)})
 		}
+		sort.Slice(lv.delegs, func(i, j int) bool { return lv.delegs[i].id < lv.delegs[j].id })
 		l.vals[lv.id] = lv
 	}
 	if d.ValidatorsStat != nil {
